@@ -77,7 +77,7 @@ def keep (l : List (Val × Bool)) : Val := setOf ((l.filter (·.2)).map (·.1))
 
 /-- reference bound: power sets of more than `2^POW_BOUND` and products of more than
 `PROD_BOUND` members have no value here -/
-def POW_BOUND : Nat := 10
+def POW_BOUND : Nat := 12
 def PROD_BOUND : Nat := 4096
 
 def nth (v : Val) (i : Int) : Option Val :=
